@@ -1,17 +1,18 @@
-(** Extraction of the reader's executable side (Reader/*.v): the text of a written file, the decidable
-    well-formedness, the nodes the file denotes and the builder run over its calls.  Kept apart from
-    Extract.v so that the main model stays runnable when a reader proof breaks.  Only ExtrOcamlBasic. *)
+(** Extraction of the reader's executable side (Reader/Defs.v, Reader/BridgeDefs.v: definitions only): the text
+    of a written file, the decidable well-formedness, the nodes the file denotes and the builder run over its
+    calls.  Kept apart from Extract.v and independent of the generated rule tree and of every proof, so that
+    the correspondence stream still runs when a reader proof no longer checks.  Only ExtrOcamlBasic. *)
 From Coq Require Import ExtrOcamlBasic List.
-From PegV Require Import Spec.Syntax Model.Calls Model.Front Reader.Chars Reader.Lits Reader.Expr Reader.Bridge Reader.File Reader.FileBridge Reader.Decide Reader.DecideFile.
+From PegV Require Import Spec.Syntax Model.Calls Model.Front Reader.Defs Reader.BridgeDefs.
 Extraction Language OCaml.
 
-Definition r_fshow := File.fshow.
-Definition r_file_okb := DecideFile.file_okb.
-Definition r_file_nodes := FileBridge.file_nodes.
-Definition r_fcalls := File.fcalls.
-Definition r_frun := FileBridge.frun.
-Definition r_finit := FileBridge.finit.
-Definition r_show := Expr.show.
-Definition r_wfb := Decide.wfb.
+Definition r_fshow := Defs.fshow.
+Definition r_file_okb := Defs.file_okb.
+Definition r_file_nodes := BridgeDefs.file_nodes.
+Definition r_fcalls := Defs.fcalls.
+Definition r_frun := BridgeDefs.frun.
+Definition r_finit := BridgeDefs.finit.
+Definition r_show := Defs.show.
+Definition r_wfb := Defs.wfb.
 
 Extraction "pegreader.ml" r_fshow r_file_okb r_file_nodes r_fcalls r_frun r_finit r_show r_wfb.
